@@ -79,7 +79,9 @@ def mk(named, names, vals):
 def struct_case(cid, named, n, typing, forward):
     spelled_not = forward == "not"     # the documented explicit spelling of the default (scalar) mode
     forward = forward is True
-    names = ["f%d" % i for i in range(n)] if named else [str(i) for i in range(n)]
+    # named fields: declaration order differs from alphabetical order, some names start with `_`, one is a raw identifier
+    pool = ["zeta", "_under", "alpha", "r#type", "mid", "_0x", "beta", "Upper", "_", "f10", "f2"]
+    names = ([pool[i] if pool[i] != "_" else "_u" for i in range(n)]) if named else [str(i) for i in range(n)]
     tys = field_types(n, typing)
     gen_decl = "<T>" if typing.startswith("generic") else ""
     inst = "<Tg<0>>" if typing.startswith("generic") else ""
@@ -155,7 +157,8 @@ pub fn run(r: &mut R) {
 def scalar_only_case(cid, named, n, generic, spelled=False):
     """Scalar Mul-like derives on a type whose fields support the operator with the scalar only."""
     attrs = "".join("#[%s(not(forward))] #[%s_assign(not(forward))] " % (m, m) for _, m in MUL) if spelled else ""
-    names = ["f%d" % i for i in range(n)] if named else [str(i) for i in range(n)]
+    pool = ["zeta", "_under", "alpha", "r#type", "mid", "_0x", "beta", "Upper", "_u", "f10", "f2"]
+    names = pool[:n] if named else [str(i) for i in range(n)]
     tys = ["T"] * n if generic else ["Ts<%d>" % i for i in range(n)]
     idx = [0] * n if generic else list(range(n))
     body = ("{ " + ", ".join("pub %s: %s" % (a, t) for a, t in zip(names, tys)) + " }") if named else ("(" + ", ".join("pub " + t for t in tys) + ");")
